@@ -250,7 +250,16 @@ def _lose(run: RunState, context, job: Job, what):
     """Delete data according to the fault plan: 'own' = this job's directories, 'all' = whole workdir,
     otherwise a list of job names whose output directories are deleted."""
     targets = []
-    if isinstance(what, dict):
+    if isinstance(what, dict) and "outputs" in what:
+        # {"outputs": [jobs]}: delete the CURRENT output directory of those jobs (what they produced, original or
+        # regenerated), not their input/tmp directories -- a producer that is being re-executed is not disturbed
+        for n in what["outputs"]:
+            dirs = run.job_dirs.get(n)
+            if dirs and dirs[1]:
+                targets.append(dirs[1])
+                if n != job.name and os.path.isdir(dirs[1]):
+                    run.lost_jobs.add(n)
+    elif isinstance(what, dict):
         # {"original": [jobs]}: delete the directories those jobs had on their FIRST attempt only -- "the data was lost
         # once"; copies regenerated by a recovery that is already under way are not touched
         for n in what["original"]:
